@@ -262,7 +262,9 @@ def _transform_rule(ctx, out, qname, getter, elem_cls_mod, name):
         cases = [((Fr(3), Fr(-4)), {}, lambda a, k: flat(a) == (Fr(3), Fr(-4)) and not k),
                  # a translation below every tolerance of the library is a translation all the same
                  (tiny, {}, lambda a, k: flat(a) == tiny and not k),
-                 ((5e-10, -5e-10), {}, lambda a, k: flat(a) == (5e-10, -5e-10) and not k)]
+                 ((5e-10, -5e-10), {}, lambda a, k: flat(a) == (5e-10, -5e-10) and not k),
+                 # the vector as a one-shot iterable (`shape.move(map(float, text.split()))`): read once, for all curves
+                 ("one-shot", {}, lambda a, k: flat(a) == (Fr(7), Fr(2)) and not k)]
     elif name == "scale":
         near1 = (1 + Fr(1, 10**12), Fr(1))
         cases = [((Fr(2), Fr(5)), {}, lambda a, k: flat(a) + tuple(v for _, v in k) == (Fr(2), Fr(5))
@@ -300,10 +302,18 @@ def _transform_rule(ctx, out, qname, getter, elem_cls_mod, name):
             curves = [c for c, _ in made]
             parts = [v for _, vs in made for v in vs]
             S = Obj("S", jordans=tuple(curves), subshapes=())
+        if args == "one-shot":
+            args = (iter((Fr(7), Fr(2))),)
         try:
             got = Runner(ctx, set(), hook, ext=ext).call_fn(fn, [S] + list(args), dict(kwargs))
-        except (Undecided, Raised) as ex:
+        except Undecided as ex:
             out.undecided(qname, f"{name}{args}: {ex}", where=fn.where())
+            return
+        except (Raised, ValueError, TypeError, StopIteration) as ex:
+            out.bad(qname, f"{name}() raises on a legitimate argument", where=fn.where(),
+                    detail=f"{name}{args if not (args and hasattr(args[0], '__next__')) else '(<one-shot iterable of two numbers>)'}: "
+                           f"{getattr(ex, 'what', type(ex).__name__)} -- after {sum(len(e.calls) for e in parts)} of {len(parts)} "
+                           f"control points were transformed")
             return
         counts = [len(e.calls) for e in parts]
         label = f"{name}{args}{kwargs or ''}"
